@@ -462,7 +462,9 @@ class Reader(ABC):
                                                          msec=msec)
             self._times_as_np_datetime64 = self.to_datetime64(year=year, jday=jday, msec=msec)
             try:
-                self._times_as_np_datetime64 = self.correct_times_thresh()
+                # corrects self._times_as_np_datetime64 in place; its return value is
+                # diagnostic output (or None) when no correction is possible
+                self.correct_times_thresh()
             except TimestampMismatch as err:
                 LOG.error(str(err))
 
